@@ -673,6 +673,19 @@ impl<'s> Visit<'s> for Rw<'s> {
                         } else {
                             self.fail(format!("loop marked `set` at {} does not iterate over a reference", self.loc(e.span())));
                         }
+                    } else if ls.set_owned {
+                        // R8b: by-value iteration over a HashSet (no vstd spec) -> iterate `.iter()` and clone each element
+                        if let syn::Pat::Ident(pi) = &*fl.pat {
+                            let name = pi.ident.to_string();
+                            let (pa, pb) = br(fl.pat.span());
+                            self.edit(pa, pb, &format!("{}__ref", name), "R8", &format!("for over an owned HashSet -> .iter() + clone at {}", self.loc(e.span())));
+                            self.edit(ea, ea, &pre, "R8", "for binder");
+                            self.edit(eb, eb, ".iter()", "R8", "iter()");
+                            let (_, bb) = br(fl.body.brace_token.span.open());
+                            self.edit(bb, bb, &format!(" let {} = {}__ref.clone();", name, name), "R8", "element clone");
+                        } else {
+                            self.fail(format!("loop marked `set-owned` at {} needs a plain identifier pattern", self.loc(e.span())));
+                        }
                     } else if !pre.is_empty() {
                         self.edit(ea, ea, &pre, "R8", &format!("for binder at {}", self.loc(e.span())));
                     }
@@ -688,6 +701,23 @@ impl<'s> Visit<'s> for Rw<'s> {
                 syn::visit::visit_expr_loop(self, l);
             }
             syn::Expr::Match(m) => {
+                // R17: a `&pat` directly inside an enum pattern, e.g. `Some(&(a, b)) => body`, is desugared to
+                // `Some(x__ref) => { let (a, b) = *x__ref; body }` (Verus has no ref patterns; the payload is Copy)
+                for (n, arm) in m.arms.iter().enumerate() {
+                    if let syn::Pat::TupleStruct(ts) = &arm.pat {
+                        if ts.elems.len() == 1 {
+                            if let syn::Pat::Reference(pr) = &ts.elems[0] {
+                                let (pa, pb) = br(ts.elems[0].span());
+                                let inner = self.text(pr.pat.span()).to_string();
+                                let nm = format!("arm{}__ref", n);
+                                self.edit(pa, pb, &nm, "R17", &format!("ref pattern `&{}` in match arm desugared at {}", norm(&inner), self.loc(arm.pat.span())));
+                                let (ba, bb) = br(arm.body.span());
+                                self.edit(ba, ba, &format!("{{ let {} = *{}; ", inner, nm), "R17", "ref pattern binding");
+                                self.edit(bb, bb, " }", "R17", "ref pattern binding close");
+                            }
+                        }
+                    }
+                }
                 for arm in &m.arms {
                     let label = format!("match arm `{}` ({}:{})", norm(self.text(arm.pat.span())).chars().take(70).collect::<String>(), self.src.rel, arm.pat.span().start().line);
                     self.register_arm(arm.body.span(), label);
@@ -1002,6 +1032,48 @@ fn locate_body<'a>(src: &'a SrcFile, f: &FnSpec) -> R<(Option<&'a syn::Signature
 }
 
 fn emit_fn(unit: &Unit, src: &SrcFile, f: &FnSpec, threaded: &BTreeSet<String>) -> R<Emitted> {
+    if !f.replaces.iter().any(|r| r.pre) {
+        return emit_fn_inner(unit, src, f, threaded);
+    }
+    // `pre` replacements: rewrite the source text of the function first, re-parse, then apply the rules
+    let (fpath, _ck) = split_closure_path(&f.path);
+    let segs: Vec<&str> = fpath.split("::").collect();
+    let Some(Found::Fn { whole, .. }) = find_fn_in_items(&src.ast.items, &segs) else {
+        refuse!("anchor lost: fn `{}` not found in {}", f.path, src.rel);
+    };
+    let (lo, hi) = br(whole);
+    let mut text = src.text.clone();
+    let mut logs = vec![];
+    for rp in f.replaces.iter().filter(|r| r.pre) {
+        let hits: Vec<usize> = text[lo..].match_indices(rp.old.as_str()).map(|(i, _)| lo + i).filter(|i| *i < hi + 4096).collect();
+        let hits: Vec<usize> = hits.into_iter().filter(|i| *i >= lo).collect();
+        if hits.is_empty() {
+            refuse!("anchor lost: //@replace text `{}` not found in `{}` ({})", rp.old, f.path, src.rel);
+        }
+        if rp.old.matches('\n').count() != rp.new.matches('\n').count() {
+            refuse!("//@replace pre: old and new text must have the same number of lines (`{}`)", rp.old);
+        }
+        let h = hits[0];
+        text.replace_range(h..h + rp.old.len(), &rp.new);
+        logs.push(Edit { start: h, end: h, text: String::new(), rule: rp.rule.clone(), note: format!("ad-hoc (before parsing): `{}` -> `{}` ({})", rp.old, rp.new, rp.why), seq: usize::MAX / 4 });
+    }
+    let ast = syn::parse_file(&text).map_err(|e| Refuse(format!("cannot parse {} after //@replace pre: {}", src.rel, e)))?;
+    let mut line_starts = vec![0];
+    for (i, b) in text.bytes().enumerate() {
+        if b == b'\n' {
+            line_starts.push(i + 1);
+        }
+    }
+    let src2: &SrcFile = Box::leak(Box::new(SrcFile { rel: src.rel.clone(), text, ast, line_starts }));
+    let mut f2 = f.clone();
+    f2.replaces.retain(|r| !r.pre);
+    let mut em = emit_fn_inner(unit, src2, &f2, threaded)?;
+    em.original = src.text[lo..hi].to_string();
+    em.rules.extend(logs);
+    Ok(em)
+}
+
+fn emit_fn_inner(unit: &Unit, src: &SrcFile, f: &FnSpec, threaded: &BTreeSet<String>) -> R<Emitted> {
     let (fpath, ck) = split_closure_path(&f.path);
     let segs: Vec<&str> = fpath.split("::").collect();
     let Some(found) = find_fn_in_items(&src.ast.items, &segs) else {
